@@ -395,6 +395,72 @@ def s3_labels(c):
     return out
 
 
+# --------------------------------------------------------------------------------------------- 2D lines, complex points
+@st.composite
+def l2c_case(draw, tier="quick"):
+    n = draw(st.sampled_from([0, 0, 3]))
+    m = max(1, n)
+    g = st.tuples(C.ints(5), C.ints(5)).map(list)
+    return {"shape": draw(st.sampled_from(SHAPES2)), "v": [draw(C.ints(6)) for _ in range(4)], "pts": [[draw(g), draw(g)] for _ in range(m)],
+            "where": [draw(st.sampled_from(["off", "off", "on"])) for _ in range(m)], "t": [draw(g) for _ in range(m)], "n": n, "s": draw(C.scale())}
+
+
+def run_l2c(c):
+    """a real line of the plane and points with Gaussian-integer coordinates (also points a + t d of the line with a complex
+    parameter t): mirror, project and perpendicular are given by the same bilinear formulas as for real points"""
+    a, d = line2_from(c)
+    nrm = np.array([-d[1], d[0]])
+    L = Line(np.array([nrm[0], nrm[1], -np.dot(nrm, a)]) * C.scale_value(c["s"]))
+    m = max(1, c["n"])
+    pts = []
+    for i in range(m):
+        if c["where"][i] == "on":
+            pts.append(a + complex(*c["t"][i]) * d)
+        else:
+            pts.append(np.array([complex(*c["pts"][i][0]), complex(*c["pts"][i][1])]))
+    pts = np.array(pts, dtype=complex)
+    if not np.any(np.abs(pts.imag) > 0):
+        raise Skip("real points")
+    on = np.abs((pts - a) @ nrm) < 1e-12
+    foot = pts - np.outer(((pts - a) @ nrm) / (nrm @ nrm), nrm)
+    mir = 2 * foot - pts
+    H = np.concatenate([pts, np.ones((m, 1))], axis=1)
+    Q = PointCollection(H) if c["n"] else Point(H[0])
+    tag = f"line2-complex-points:{'coll' if c['n'] else 'single'}"
+    ck = Checker()
+    r, f = call(tag + ":mirror", L.mirror, Q)
+    if f:
+        ck.add(f)
+    else:
+        R = np.asarray(r.array).reshape((-1, 3))
+        if ck.check(R.shape[0] == m, tag + ":mirror:shape", np.asarray(r.array).shape):
+            for i in range(m):
+                ck.check(C.peq_all(R[i], np.append(mir[i], 1.0), 1, 1e-7), f"{tag}:mirror:{'on' if on[i] else 'off'}", (R[i].tolist(), mir[i].tolist()))
+            r2, f = call(tag + ":mirror", L.mirror, r)
+            if f:
+                ck.add(f)
+            else:
+                ck.check(C.peq_all(np.asarray(r2.array).reshape((-1, 3)), H, 1, 1e-7), tag + ":mirror:involution", "")
+    r, f = call(tag + ":project", L.project, Q)
+    if f:
+        ck.add(f)
+    else:
+        R = np.asarray(r.array).reshape((-1, 3))
+        if ck.check(R.shape[0] == m, tag + ":project:shape", np.asarray(r.array).shape):
+            for i in range(m):
+                ck.check(C.peq_all(R[i], np.append(foot[i], 1.0), 1, 1e-7), f"{tag}:project:{'on' if on[i] else 'off'}", (R[i].tolist(), foot[i].tolist()))
+    r, f = call(tag + ":perpendicular", L.perpendicular, Q)
+    if f:
+        ck.add(f)
+    else:
+        R = np.asarray(r.array).reshape((-1, 3))
+        if ck.check(R.shape[0] == m, tag + ":perpendicular:shape", np.asarray(r.array).shape):
+            for i in range(m):
+                ck.check(abs(np.sum(C.pnorm(R[i]) * C.pnorm(H[i]))) < 1e-7, f"{tag}:perpendicular:contains-point", (R[i].tolist(), H[i].tolist()))
+                ck.check(ccross_zero(R[i][:2], d), f"{tag}:perpendicular:is-perpendicular", (R[i].tolist(), d.tolist()))
+    return ck.result()
+
+
 # --------------------------------------------------------------------------------------------- predicates
 PRED = ["perp_lines2", "perp_lines3", "perp_planes", "parallel_lines2", "parallel_planes", "parallel_line_plane", "cocircular", "collinear2", "coplanar3",
         "concurrent2", "bisectors2", "bisectors3", "same_object"]
@@ -701,6 +767,8 @@ def run_mixed(c):
 LAWS = [
     Law("line2d", lambda tier: l2_case(tier), run_l2, l2_nontrivial, l2_labels, {"quick": 1500, "thorough": 30000},
         "2D line: perpendicular/parallel/project/mirror + base_point/direction/basis_matrix/general_point", shard=300, mandatory=("point-on-line", "mixed-mask", "vertical", "origin")),
+    Law("line2d_complex_points", lambda tier: l2c_case(tier), run_l2c, lambda c: True, lambda c: [c["shape"], "coll" if c["n"] else "single"] + sorted(set(c["where"][: max(1, c["n"])])),
+        {"quick": 600, "thorough": 10000}, "real 2D line, points with Gaussian-integer coordinates: mirror (involution), project, perpendicular by the bilinear formulas", shard=300),
     Law("subspace3d", lambda tier: s3_case(tier), run_s3, lambda c: c["shape"] != "generic" or "on" in c["where"][: max(1, c["n"])], s3_labels, {"quick": 1200, "thorough": 25000},
         "3D line / plane: perpendicular/parallel/project/mirror + helpers", shard=200, mandatory=("point-on-subspace", "mixed-mask")),
     Law("predicates_mixed_collections", lambda tier: mixed_case(tier), run_mixed, lambda c: len({p["mode"] for p in c["pos"]}) > 1,
